@@ -1571,7 +1571,25 @@ func ruleBlockLoops(r *Report) {
 		for _, f := range deepFuncs(fn) {
 			allInstrs(f, func(ins ssa.Instruction) {
 				phi, isPhi := ins.(*ssa.Phi)
-				if !isPhi || !isNamed(phi.Type(), CommitPath, "Chunk") {
+				if !isPhi {
+					return
+				}
+				// the block counter: a Chunk-typed induction variable, or an integer one that is
+				// converted to a Chunk (for i := 0; …; i++ { chunk := commit.Chunk(i) })
+				isCounter := isNamed(phi.Type(), CommitPath, "Chunk")
+				if !isCounter {
+					for _, ref := range *phi.Referrers() {
+						if cv, isCv := ref.(ssa.Value); isCv {
+							switch ref.(type) {
+							case *ssa.Convert, *ssa.ChangeType:
+								if isNamed(cv.Type(), CommitPath, "Chunk") {
+									isCounter = true
+								}
+							}
+						}
+					}
+				}
+				if !isCounter {
 					return
 				}
 				loops++
@@ -1592,8 +1610,20 @@ func ruleBlockLoops(r *Report) {
 					if !isB {
 						continue
 					}
-					if op, x, y, _, _ := canonBin(bo); op == token.LEQ && x == ssa.Value(phi) && isLimit(y) {
+					op, x, y, _, _ := canonBin(bo)
+					if x != ssa.Value(phi) {
+						continue
+					}
+					// counter <= limit, or counter < limit+1
+					if op == token.LEQ && isLimit(y) {
 						bound = true
+					}
+					if op == token.LSS {
+						if add, isAdd := norm(y).(*ssa.BinOp); isAdd && add.Op == token.ADD {
+							if one, isC := constInt(add.Y); isC && one == 1 && isLimit(add.X) {
+								bound = true
+							}
+						}
 					}
 				}
 				if init && step && bound {
